@@ -13,7 +13,9 @@ EXPLANATION = (
     'printing (from 0, the index being the number printed), measured by len() and '
     'subscripted is one and the same materialised list for every --sort mode; (R13.4) an '
     'empty reply leaves before the restorer, a parse error is converted into exit(non-zero) '
-    'with no effect after it.  Does not decide the reply grammar over all strings nor that '
+    'with no effect after it; (R13.7) a range "a-b" of the reply iterates range(int(a), '
+    'int(b) + 1) with a and b the first and second piece in the order typed (a reversed '
+    'range selects nothing).  Does not decide the reply grammar over all strings nor that '
     'sorted() yields the requested order.')
 ASSUMPTIONS = ['int(), range(), sorted(), enumerate() behave as documented']
 MINIMUM = {'R13.1': 4, 'R13.2': 2, 'R13.3': 3, 'R13.4': 2, 'R13.5': 1, 'R13.6': 1, 'R13.7': 1}
